@@ -64,7 +64,34 @@ pub fn fan_out(n: usize, args: &[String]) -> Vec<WorkerOutput> {
                 .lines()
                 .map(|l| l.unwrap_or_default())
                 .collect();
+            // a worker that outlives the deadline is a harness problem (e.g. code under test that
+            // blocks on a primitive the simulator does not model), never a verdict
+            let deadline = std::env::var("VERIF_WORKER_DEADLINE_S")
+                .ok()
+                .and_then(|s| s.parse::<u64>().ok())
+                .filter(|d| *d > 0);
+            let pid = child.id();
+            let done = std::sync::Arc::new(std::sync::atomic::AtomicBool::new(false));
+            if let Some(d) = deadline {
+                let done = std::sync::Arc::clone(&done);
+                std::thread::spawn(move || {
+                    let start = std::time::Instant::now();
+                    while start.elapsed().as_secs() < d {
+                        if done.load(std::sync::atomic::Ordering::Relaxed) {
+                            return;
+                        }
+                        std::thread::sleep(std::time::Duration::from_millis(500));
+                    }
+                    if !done.load(std::sync::atomic::Ordering::Relaxed) {
+                        eprintln!("HARNESS-ERROR: worker process {pid} exceeded the deadline of {d} s and is killed");
+                        unsafe {
+                            libc::kill(pid as i32, libc::SIGKILL);
+                        }
+                    }
+                });
+            }
             let status = child.wait().expect("wait worker");
+            done.store(true, std::sync::atomic::Ordering::Relaxed);
             let _ = err_thread.join();
             WorkerOutput {
                 index: i,
